@@ -20,8 +20,8 @@ Oracle (all recomputed with NumPy from the site tensors, never with the library'
   compress    after canonicalise, with bond limit = max Schmidt rank (int), per-bond list of Schmidt
               ranks, a huge limit, CompressConfig(fixed, max rank) and CompressConfig(threshold 1e-13)
   variational mps.variational_compress(mpo) / mpo.contract(mps, "variational") with bond limit >=
-              every Schmidt rank of the exact product: relative error <= 1e-6 (2-site method; the
-              1-site method only from an exact guess, as its docstring warns about local minima)
+              every Schmidt rank of the exact product: relative error <= 1e-6 with the default
+              configuration; both methods from an exact guess with percent = 0 (fixed point)
 
 Signatures: ``<routine>:<input class>:<failure>``.  Known defect re-found here:
   D14  canonicalise:empty-sweep:UnboundLocalError   (one-site chain, or stop site == start site)
@@ -423,11 +423,11 @@ def test_variational(ctx, model):
     the default configuration (2-site method, default vguess_m = (5, 5)); the states are given
     bonds up to 8 so that the default guess really is a truncation (mode "default"; mode
     "mpdm-default" does the same for operator x density operator on the small model).  Two non-default settings are
-    also run: the 1-site method from an exact guess (the exact product must be a fixed point of the
-    sweep -- judged), and the 2-site method from a poor guess of bond 1..3 (only measured and
+    also run: either method from an exact guess with percent = 0 in every sweep (mode "fixed-point":
+    the exact product must be reproduced -- judged), and the 2-site method from a poor guess of bond 1..3 (only measured and
     counted: stalling from a poor start is a limitation of the algorithm, not judged here)."""
     rng, run = ctx.rng, ctx.run
-    mode = ["default", "default", "1site-exact-guess", "poor-guess", "mpdm-default"][int(rng.integers(5))]
+    mode = ["default", "default", "fixed-point", "poor-guess", "mpdm-default"][int(rng.integers(5))]
     skind = "mpdm" if mode == "mpdm-default" else "mps"
     if mode == "default":
         # own model: long enough and with sectors wide enough for Schmidt ranks above 5
@@ -472,8 +472,11 @@ def test_variational(ctx, model):
     M = max(ranks) + int(rng.integers(0, 3))
     if mode in ("default", "mpdm-default"):
         cfg = CompressConfig(CompressCriteria.fixed, max_bonddim=M)
-    elif mode == "1site-exact-guess":
-        cfg = CompressConfig(CompressCriteria.fixed, max_bonddim=M, vmethod="1site", vguess_m=(64, 64))
+    elif mode == "fixed-point":
+        # exact guess and pure singular-value selection (percent = 0 in every sweep): the exact product
+        # must be reproduced by either method
+        cfg = CompressConfig(CompressCriteria.fixed, max_bonddim=M, vmethod="1site" if rng.random() < 0.5 else "2site",
+                             vguess_m=(64, 64), vprocedure=[[M, 0.0]] * 4)
     else:
         g = int(rng.integers(1, 4))
         cfg = CompressConfig(CompressCriteria.fixed, max_bonddim=M, vguess_m=(g, g))
@@ -522,10 +525,24 @@ def test_variational(ctx, model):
     err = nrm(obs - P) / nrm(P)
     run.count("variational:err<=1e-10" if err <= 1e-10 else ("variational:err<=1e-8" if err <= 1e-8 else "variational:err>1e-8"))
     if not err <= VAR_TOL:
-        # a guess that lost a whole sector cannot be repaired by the sweeps (new bond labels must join
-        # labels already present on both neighbouring bonds): reproduced by hand, own signature
-        sig = f"variational:{mode}:guess-lacks-sector:stalled" if starved else f"variational:{mode}:not-converged-to-product"
-        viol(ctx, sig, psi, dict(extra, rel_err=err, guess_rel_err=gerr, bond_dims=[int(b) for b in r.bond_dims]))
+        # Reproduced by hand: the sweeps can stall in a local minimum in which, on some bond, the iterate
+        # holds fewer states of a symmetry sector than the exact product needs there -- the sector was
+        # dropped by the truncated guess, or its slots were given to other sectors by the `percent`
+        # basis selection of the first sweeps when the limit is tight.  A 2-site update can only create
+        # bond labels that join labels already present on both neighbouring bonds, so the iterate does
+        # not recover, whatever the bond limit.  These stalls get their own signature; any failure with
+        # an exact guess and a limit above the exact rank, and every other failure, is reported as
+        # not-converged-to-product.
+        starved_result = False
+        if mode != "fixed-point" and (gerr > 1e-8 or M == max(ranks)):
+            try:
+                need, have = lc.sector_ranks(P, model, skind), lc.sector_ranks(obs, model, skind, hi=1e-12)
+                starved_result = any(h.get(c, 0) < k for nd, h in zip(need, have) for c, k in nd.items())
+            except Exception:  # noqa: BLE001
+                starved_result = False
+        sig = "variational:sector-starved:stalled" if starved_result else f"variational:{mode}:not-converged-to-product"
+        viol(ctx, sig, psi, dict(extra, rel_err=err, guess_rel_err=gerr, guess_lacks_sector=bool(starved),
+                                 bond_dims=[int(b) for b in r.bond_dims]))
         return
     if max(r.bond_dims) > M:
         viol(ctx, f"variational:{mode}:bond-over-limit", psi, dict(extra, bond_dims=[int(b) for b in r.bond_dims]))
@@ -621,7 +638,7 @@ def safely(ctx, name, spec, fn, *args):
 
 def search(run, rng, quick):
     ctx = Ctx(run, rng, quick)
-    rounds = 450 if quick else 4500
+    rounds = 300 if quick else 3600
     nmax = 5 if quick else 6
     for rd in range(rounds):
         if ctx.out_of_time():
